@@ -119,7 +119,7 @@ func execAccept(p mseParams, m map[string]string) string {
 	ea, eb, a2b, b2a := newDuplex(nil, parseChunks(m["cb"]))
 	sr, restore := installRand()
 	defer restore()
-	cancel := watchdog(20*time.Second, ea, eb)
+	cancel := watchdog(5*time.Second, ea, eb)
 	defer cancel()
 
 	var wg sync.WaitGroup
